@@ -161,14 +161,24 @@ def shortest (m : Nat) (e : Int) : List Nat × Int :=
       | none => go fuel (p + 1)
   go 17 1
 
+/-- n/d rounded to the nearest integer, ties to even (the rounding step of `'G', 15`) -/
+def roundAt (n d : Nat) : Nat :=
+  let q := n / d
+  let r := n % d
+  if 2 * r > d ∨ (2 * r = d ∧ q % 2 = 1) then q + 1 else q
+
+/-- numerator and denominator of |x|·10^(−s) for |x| = num/den -/
+def scaleFrac (num den : Nat) (s : Int) : Nat × Nat :=
+  if s ≥ 0 then (num, den * 10 ^ s.toNat) else (num * 10 ^ (-s).toNat, den)
+
 /-- x rounded to p significant digits (nearest, ties to even) -/
 def roundSig (m : Nat) (e : Int) (p : Nat) : List Nat × Int :=
   let num := if e ≥ 0 then m <<< e.toNat else m
   let den := if e ≥ 0 then 1 else 1 <<< (-e).toNat
   let k := log10Floor num den
   let s : Int := k - ((p : Int) - 1)
-  let (q, r, d) := scaled num den s
-  let v := if 2 * r > d ∨ (2 * r = d ∧ q % 2 = 1) then q + 1 else q
+  let (n', d') := scaleFrac num den s
+  let v := roundAt n' d'
   let ds := natDigits v
   (stripZeros ds, (ds.length : Int) + s)
 
